@@ -341,6 +341,7 @@ std::string run_case(const std::vector<std::string>& w)
    bool haveFile = false, haveEnv = false, haveLine = false, wantOut = false;
    std::vector<int> defOrder;
    std::vector<std::pair<std::string, std::string>> xfiles;
+   std::vector<std::string> xdirs;
    std::vector<std::string> argvWords;
    for (size_t t = 1; t < w.size(); ++t)
    {
@@ -374,6 +375,7 @@ std::string run_case(const std::vector<std::string>& w)
          auto p = vf::split(tok, ':');
          xfiles.emplace_back(vf::unhexs(p.at(1)), vf::unhexs(p.at(2)));
       }
+      else if (tok.rfind("xdir:", 0) == 0) xdirs.push_back(vf::unhexs(tok.substr(5)));   // a directory of that name
       else if (tok.rfind("order:", 0) == 0) { for (auto& x : vf::split(tok.substr(6), ',')) defOrder.push_back(std::stoi(x)); }
    }
    // private HOME for the argument file; environment variable named after the program
@@ -386,12 +388,13 @@ std::string run_case(const std::vector<std::string>& w)
    const std::string paFile = home + "/.progargs/" + base + ".pa";
    ::unlink(paFile.c_str());
    if (haveFile) { std::ofstream f(paFile, std::ios::binary); f << fileContent; }
-   if (!xfiles.empty())
+   if (!xfiles.empty() || !xdirs.empty())
    {
       const std::string afdir = std::string(workdir ? workdir : ".") + "/af";
       ::mkdir(afdir.c_str(), 0755);
       if (::chdir(afdir.c_str()) != 0) throw std::runtime_error("chdir " + afdir);
       for (auto& xf : xfiles) { std::ofstream f(xf.first, std::ios::binary); f << xf.second; }
+      for (auto& xd : xdirs) ::mkdir(xd.c_str(), 0755);
    }
    std::string envName = base;
    for (auto& c : envName) c = static_cast<char>(toupper(static_cast<unsigned char>(c)));
@@ -526,6 +529,7 @@ std::string run_case(const std::vector<std::string>& w)
    if (useGroups) { shared.clear(); pa::Groups::reset(); }
    ::unlink(paFile.c_str());
    for (auto& xf : xfiles) ::unlink(xf.first.c_str());
+   for (auto& xd : xdirs) ::rmdir(xd.c_str());
    if (outcome == "ok") res += vals;
    if (wantOut) res += " out=" + vf::hex(out.str());
    res += " ## " + excName + (outcome == "ok" ? "" : vals) + " | " + vf::hex(wantOut ? std::string() : out.str())
